@@ -278,7 +278,7 @@ func drawC16(t *rapid.T) C16Case {
 		Accruals:   rapid.IntRange(0, 2).Draw(t, "accruals") == 0,
 		Assertions: rapid.Bool().Draw(t, "assertions"), Closes: true, Perf: rapid.Bool().Draw(t, "perf"),
 		Prices:    1,
-		MaxDec:    rapid.SampledFrom([]int{2, 4, 8}).Draw(t, "maxDec"),
+		MaxDec:    rapid.SampledFrom([]int{2, 4, 8, 12}).Draw(t, "maxDec"),
 		WideDates: true,
 	}
 	j := gen.GenJournal(t, cfg)
